@@ -12,7 +12,9 @@
 (* allocator is judged by the property only: a returned value was never returned before;     *)
 (* it is greater than every value the same allocator returned to calls that had finished     *)
 (* before this call began; a call whose fetch was not a well-formed positive-increment row   *)
-(* returns an error.  The I-level variables of Sequence are not used.                        *)
+(* returns an error.  A return that violates the property is not a step of this            *)
+(* specification (the reason is printed), so the trace is rejected exactly there.            *)
+(* The I-level variables of Sequence are not used.                                           *)
 EXTENDS Sequence, TLC, Json
 
 Trace == ndJsonDeserialize("trace.ndjson")
@@ -57,20 +59,24 @@ TFetch == /\ IsEv("fetch")
                 /\ tfo' = [tfo EXCEPT ![c] = IF tfo[c] \in {"none", "ok"} THEN o ELSE tfo[c]]
           /\ UNCHANGED <<dbinc, frozen, issued, dup, nonmono, badval, tid, floor, maxret>>
 
+Reject(why) == PrintT(<<"REJECT-REASON", tid, Trace[l].a, Trace[l].g, why>>) /\ FALSE
+
 TRet == /\ IsEv("ret")
         /\ LET c == C(Trace[l])
                a == A(c)
                v == Trace[l].v
+               isok == Trace[l].ok
            IN /\ c \in Callers
-              /\ IF Trace[l].ok
-                 THEN /\ dup' = (dup \/ v \in issued)
-                      /\ issued' = issued \cup {v}
-                      /\ nonmono' = (nonmono \/ (floor[c] # NoVal /\ v <= floor[c]))
+              \* the property, as enabling conditions: a run that violates it cannot be continued here
+              /\ IF isok /\ tfo[c] \notin {"none", "ok"} THEN Reject("BadFetchFails") ELSE TRUE
+              /\ IF isok /\ v \in issued THEN Reject("Distinct") ELSE TRUE
+              /\ IF isok /\ floor[c] # NoVal /\ v <= floor[c] THEN Reject("Increasing") ELSE TRUE
+              /\ IF isok
+                 THEN /\ issued' = issued \cup {v}
                       /\ maxret' = [maxret EXCEPT ![a] = IF maxret[a] = NoVal \/ v > maxret[a] THEN v ELSE maxret[a]]
-                      /\ badval' = (badval \/ tfo[c] \notin {"none", "ok"})
-                 ELSE UNCHANGED <<dup, issued, nonmono, maxret, badval>>
+                 ELSE UNCHANGED <<issued, maxret>>
               /\ tfo' = [tfo EXCEPT ![c] = "none"]
-        /\ UNCHANGED <<dbcur, dbinc, broken, frozen, tid, floor>>
+        /\ UNCHANGED <<dbcur, dbinc, broken, frozen, tid, floor, dup, nonmono, badval>>
 
 TReset == /\ Boundary
           /\ dbcur' = Start /\ dbinc' = Inc /\ broken' = FALSE
